@@ -44,6 +44,9 @@ def configs(tier: str) -> list:
         # one explicit conjunction with several failing parts per individual: mutation picks among the failing trees
         "conjunction": ('<start> ::= <a> "-" <b> "-" <c>\n<a> ::= <digit>+\n<b> ::= <digit>+\n<c> ::= <digit>+\n<digit> ::= r"[0-9]"\n'
                         'where int(<a>) % 13 == 5 and int(<b>) % 17 == 11 and int(<c>) % 7 == 3\n', "5-11-3"),
+        # a conditional expression over three differently shaped symbols: the ORDER of the constraint's searches decides the order of the failing trees
+        "conditional": ('<start> ::= <a> "-" <b> "-" <c>\n<a> ::= <digit>{1,4}\n<b> ::= <digit>{2,3}\n<c> ::= <digit>+\n<digit> ::= r"[0-9]"\n'
+                        'where (int(<a>) > 990) if (int(<b>) > 80) else (int(<c>) == 77)\nwhere len(str(<c>)) < 40\n', "991-81-5"),
     }
     names = list(specs)
     if tier == "quick":
